@@ -305,6 +305,7 @@ class Moment:
                 changed
                 or resolved_op != op
                 or (protocols.is_parameterized(op) and not protocols.is_parameterized(resolved_op))
+                or protocols.parameter_names(op) != protocols.parameter_names(resolved_op)
             )
             resolved_ops.append(resolved_op)
         if not changed:
